@@ -64,6 +64,11 @@ Proof.
 Qed.
 Print Assumptions C09_history.
 
+(* the invariant alone, by induction over ANY operation list from the empty directory (DESIGN's name) *)
+Theorem C09_inv : forall ops, Forall wf_op ops -> inv (run sort_pnames_fixed ops empty).
+Proof. intros ops W. exact (proj1 (history_ok ops W)). Qed.
+Print Assumptions C09_inv.
+
 (* ---- the pinned code ------------------------------------------------------------------------------
    DESIGN witness: write k=[0,1,0,0] in groups of 3, append k=[1,0] in one group, overwrite with k=[1,0,0,1,1]
    in groups of 2.  With _sort_part_names keyed by part number a rename replaces a live file: the invariant
